@@ -125,3 +125,55 @@ def model_real(s):
     else:
         v = Fraction(s)
     return -v if neg else v
+
+
+
+class SubCtx:
+    """view of the C01 context that prefixes the unit / obligation names of a stage module and drops its bounded stand-ins
+    (they belong to the stage property's own check)"""
+
+    def __init__(self, ctx, mod):
+        self._ctx, self._mod = ctx, mod
+
+    def __getattr__(self, k):
+        return getattr(self._ctx, k)
+
+    def unit(self, name, fn):
+        return self._ctx.unit(f"stage {self._mod}: {name}", fn)
+
+    def oblige(self, name, hyps, goal, func=None, kind="post", replay=None, info=None, expect="valid"):
+        info = dict(info or {})
+        info.setdefault("stage", self._mod)
+        return self._ctx.oblige(f"stage-{self._mod}:{name}", hyps, goal, func=func, kind=kind, replay=replay, info=info, expect=expect)
+
+    def canary(self, *a, **k):
+        from pyvc.framework import Ctx
+        return Ctx.canary(self, *a, **k)
+
+    def side_obligations(self, *a, **k):
+        from pyvc.framework import Ctx
+        return Ctx.side_obligations(self, *a, **k)
+
+    def expect(self, desc, ok):
+        return self._ctx.expect(f"stage {self._mod}: {desc}", ok)
+
+    def add_bounded(self, *a, **k):
+        return None
+
+
+def stage_concretise(ctx, o, r):
+    """counter-model concretiser of the stage module an included obligation came from"""
+    import importlib
+    fn = getattr(importlib.import_module(f"props.{o.info['stage']}"), "concretise", None)
+    return fn(ctx, o, r) if fn else None
+
+
+def include_stage(ctx, mod_name, only=None):
+    """regenerate the proof units of another property's module inside this check (obligation names are prefixed with the stage)"""
+    import importlib
+    mod = importlib.import_module(f"props.{mod_name}")
+    sub = SubCtx(ctx, mod_name)
+    if only is None:
+        mod.build(sub)
+    else:
+        only(mod, sub)
